@@ -9,6 +9,16 @@ def run(ck):
           what="reference Compact(S) is canonical (valid, antichain, no complete sibling set, expands exactly to S) for every "
                "S = union of whole sibling groups + one partial group among the grandchildren of a pentagon base cell",
           workers=4, xmx="8g")
+    ck.mc("MC_CompactAlgo", "MC_CompactAlgo.cfg", workers=vlib.NCPU, xmx="12g", timeout=3000,
+          what="one round of compactCells as a state machine over an abstract hash table: 3 parents (one pentagon), every multiset of up "
+               "to 9 children, every hash function, every presentation order: probes terminate (NEVER branches unreachable), one slot per "
+               "parent with the right count, the scan finds exactly the complete parents within the n/6 buffer, the lookup classifies "
+               "every cell correctly")
+    neg = vlib.tlc("MC_CompactAlgo", "MC_CompactAlgo_neg.cfg", workers=vlib.NCPU, xmx="12g")
+    if neg["verdict"] != "invariant":
+        raise vlib.InfraError("negative control (probing modulo the allocated length) was not rejected: %s" % neg["verdict"])
+    ck.ev.notes.append("negative control: probing modulo the allocated length instead of the round's size loses complete parents in the "
+                       "model (ScanExact violated), as expected")
     drv = vlib.build_driver("drv_compact", "dbg")
     t = os.path.join(ck.tdir, "c06.ndjson")
     d = vlib.run_driver(drv, [ck.tier, ck.seed, t])
